@@ -244,7 +244,7 @@ add("C18.filtered.writer.vtt", "ValueError@vtt/cue.py:VttCue.to_string",
     "same fix as C18.writer.vtt ValueError@vtt/cue.py:to_string")
 
 DEEP = {"fmt": "srt", "text": TC + "@OPEN@x\n", "repeat": {"open": "<i>", "close": "", "n": 1500}}
-for _clause in ("C18.isd", "C18.writer.srt", "C18.writer.vtt", "C18.writer.imsc", "C18.lcd"):
+for _clause in ("C18.isd",):     # the snapshot stage runs first and always overflows first; the later stages fail alike on the same document
   add(_clause, "RecursionError(deeply nested document)",
       "a document nested several hundred levels deep (the SRT and WebVTT readers build it iteratively from e.g. 1500 unclosed <i> tags; the IMSC reader "
       "itself overflows, see C18.reader.ttml) overflows the recursion of every tree walk downstream: ISD.significant_times / _process_element / "
